@@ -696,4 +696,242 @@ theorem p9_mountTag (cfg tag : Bytes) (utf8 : Bytes → Bool) (h : P9.mountTag c
 
 end Small
 
+/-! ## EDID: for EVERY blob (any bytes, any `size`) the parser equals the specification decode -/
+namespace Edid
+open VirtioVerif.Edid
+
+theorem shr6 : ∀ b, b < 256 → (b >>> 6) &&& 3 = b / 64 % 4 := by decide +kernel
+theorem hiNib : ∀ b, b < 256 → (b &&& 0xF0) <<< 4 = 256 * (b / 16) := by decide +kernel
+theorem orLow : ∀ k, k < 16 → ∀ lo, lo < 256 → lo ||| (256 * k) = lo + 256 * k := by decide +kernel
+
+theorem stdParse_eq_spec (b0 b1 : Nat) (h0 : b0 < 256) (h1 : b1 < 256) : stdParse b0 b1 = Spec.stdTiming b0 b1 := by
+  simp only [stdParse, Spec.stdTiming, shr6 b1 h1, Prod.mk.injEq]
+  by_cases h : b0 = 1 ∧ b1 = 1
+  · simp [h]
+  · simp only [h, ↓reduceIte]
+    have : b1 / 64 % 4 < 4 := Nat.mod_lt _ (by decide)
+    generalize b1 / 64 % 4 = k at this
+    match k, this with
+    | 0, _ => simp [vPixels]; omega
+    | 1, _ => simp [vPixels]; omega
+    | 2, _ => simp [vPixels]; omega
+    | 3, _ => simp [vPixels]; omega
+
+theorem dtdParse_eq_spec (bs : Bytes) (hb : ∀ b ∈ bs, b < 256) :
+    dtdParse bs = (let r := Spec.dtdActive bs; if r.1 = 0 ∨ r.2 = 0 then none else some r) := by
+  have gd : ∀ i, bs.getD i 0 < 256 := by
+    intro i
+    rw [List.getD_eq_getElem?_getD]
+    cases h : bs[i]? with
+    | none => simp
+    | some v => simp; exact hb v (List.mem_of_getElem? h)
+  have e1 : bs.getD 2 0 ||| ((bs.getD 4 0 &&& 0xF0) <<< 4) = bs.getD 2 0 + 256 * (bs.getD 4 0 / 16) := by
+    rw [hiNib _ (gd 4)]
+    exact orLow _ (by have := gd 4; omega) _ (gd 2)
+  have e2 : bs.getD 5 0 ||| ((bs.getD 7 0 &&& 0xF0) <<< 4) = bs.getD 5 0 + 256 * (bs.getD 7 0 / 16) := by
+    rw [hiNib _ (gd 7)]
+    exact orLow _ (by have := gd 7; omega) _ (gd 5)
+  simp only [dtdParse, Spec.dtdActive, e1, e2]
+  split <;> simp_all
+
+theorem slice_ok (d : Bytes) (off len : Nat) (h : off + len ≤ d.length) :
+    slice d off len = some ((d.drop off).take len) := by
+  simp [slice]; omega
+
+theorem slice_isSome_iff (d : Bytes) (off len : Nat) : (slice d off len).isSome ↔ off + len ≤ d.length := by
+  simp [slice]; omega
+
+/-- index arithmetic stays in bounds for the 1024-byte array the driver holds (indeed for ≥ 128 bytes) -/
+theorem no_panic (d : Bytes) (size : Nat) (h : 128 ≤ d.length) :
+    (preferredResolution d size).isSome ∧ (standardTimings d size).isSome := by
+  constructor
+  · simp only [preferredResolution, firstDetailedTiming]
+    split
+    · simp
+    · rw [slice_ok d DTD1_OFFSET DTD_LEN (by simp [DTD1_OFFSET, DTD_LEN]; omega)]; simp
+  · simp only [standardTimings]
+    split
+    · simp
+    · have hs : ∀ i, i < 8 → ∃ o, standardTiming d i = some o := by
+        intro i hi
+        simp only [standardTiming]
+        rw [slice_ok d _ _ (by simp [STANDARD_TIMINGS_OFFSET, STANDARD_TIMING_LEN]; omega)]
+        exact ⟨_, rfl⟩
+      have : ∀ (is : List Nat), (∀ i ∈ is, i < 8) → (collectStd d is).isSome := by
+        intro is
+        induction is with
+        | nil => intro _; simp [collectStd]
+        | cons i is ih =>
+          intro hall
+          obtain ⟨o, ho⟩ := hs i (hall i (by simp))
+          have := ih (fun j hj => hall j (by simp [hj]))
+          simp only [collectStd, ho]
+          cases hc : collectStd d is with
+          | none => simp [hc] at this
+          | some r => simp
+      have h8 := this (List.range NUM_STANDARD_TIMINGS) (by intro i hi; simpa [NUM_STANDARD_TIMINGS] using hi)
+      cases hc : collectStd d (List.range NUM_STANDARD_TIMINGS) with
+      | none => simp [hc] at h8
+      | some r => simp
+
+theorem mem_take_drop_lt (d : Bytes) (hb : ∀ b ∈ d, b < 256) (o n : Nat) : ∀ b ∈ (d.drop o).take n, b < 256 :=
+  fun b h => hb b (List.mem_of_mem_drop (List.mem_of_mem_take h))
+
+theorem getD_lt (d : Bytes) (hb : ∀ b ∈ d, b < 256) (i : Nat) : d.getD i 0 < 256 := by
+  rw [List.getD_eq_getElem?_getD]
+  cases h : d[i]? with
+  | none => simp
+  | some v => simp; exact hb v (List.mem_of_getElem? h)
+
+/-- preferred resolution = the specification's decode of descriptor 1 (for every blob, every size) -/
+theorem preferred_eq_spec (d : Bytes) (size : Nat) (hb : ∀ b ∈ d, b < 256) (hl : 128 ≤ d.length) :
+    preferredResolution d size =
+      some (match Spec.preferred d size with | some r => .ok r | none => .error .ioError) := by
+  simp only [preferredResolution, firstDetailedTiming, Spec.preferred, hasBaseBlock]
+  by_cases hs : size < 128
+  · have : ¬ (size ≥ 128) := by omega
+    simp [hs, this]
+  · have h2 : size ≥ 128 := by omega
+    rw [slice_ok d DTD1_OFFSET DTD_LEN (by simp [DTD1_OFFSET, DTD_LEN]; omega)]
+    simp only [h2, decide_true, Bool.not_true, Bool.false_eq_true, ↓reduceIte, hs, Option.map_some,
+      dtdParse_eq_spec _ (mem_take_drop_lt d hb _ _), DTD1_OFFSET, DTD_LEN]
+    generalize Spec.dtdActive (List.take 18 (List.drop 54 d)) = r
+    by_cases hc : r.1 = 0 ∨ r.2 = 0 <;> simp [hc]
+
+theorem standardTiming_eq_spec (d : Bytes) (i : Nat) (hb : ∀ b ∈ d, b < 256) (hl : 128 ≤ d.length) (hi : i < 8) :
+    standardTiming d i = some (Spec.stdTiming (d.getD (0x26 + 2 * i) 0) (d.getD (0x26 + 2 * i + 1) 0)) := by
+  simp only [standardTiming]
+  rw [slice_ok d _ _ (by simp [STANDARD_TIMINGS_OFFSET, STANDARD_TIMING_LEN]; omega)]
+  have e0 : ((d.drop (STANDARD_TIMINGS_OFFSET + i * STANDARD_TIMING_LEN)).take STANDARD_TIMING_LEN).getD 0 0
+      = d.getD (0x26 + 2 * i) 0 := by
+    simp [List.getD_eq_getElem?_getD, List.getElem?_take, List.getElem?_drop, STANDARD_TIMINGS_OFFSET, STANDARD_TIMING_LEN]
+    congr 2; omega
+  have e1 : ((d.drop (STANDARD_TIMINGS_OFFSET + i * STANDARD_TIMING_LEN)).take STANDARD_TIMING_LEN).getD 1 0
+      = d.getD (0x26 + 2 * i + 1) 0 := by
+    simp [List.getD_eq_getElem?_getD, List.getElem?_take, List.getElem?_drop, STANDARD_TIMINGS_OFFSET, STANDARD_TIMING_LEN]
+    congr 2; omega
+  simp only [e0, e1, stdParse_eq_spec _ _ (getD_lt d hb _) (getD_lt d hb _)]
+
+theorem collectStd_eq_spec (d : Bytes) (hb : ∀ b ∈ d, b < 256) (hl : 128 ≤ d.length) :
+    ∀ (is : List Nat), (∀ i ∈ is, i < 8) →
+      collectStd d is = some (is.filterMap fun i => Spec.stdTiming (d.getD (0x26 + 2 * i) 0) (d.getD (0x26 + 2 * i + 1) 0)) := by
+  intro is
+  induction is with
+  | nil => intro _; simp [collectStd]
+  | cons i is ih =>
+    intro hall
+    have h1 := standardTiming_eq_spec d i hb hl (hall i (by simp))
+    have h2 := ih (fun j hj => hall j (by simp [hj]))
+    simp only [collectStd, h1, h2, List.filterMap_cons]
+    cases Spec.stdTiming (d.getD (0x26 + 2 * i) 0) (d.getD (0x26 + 2 * i + 1) 0) <;> simp
+
+/-- standard timings = the specification's entries, stably sorted by decreasing pixel count -/
+theorem standardTimings_eq_spec (d : Bytes) (size : Nat) (hb : ∀ b ∈ d, b < 256) (hl : 128 ≤ d.length) :
+    standardTimings d size = some (if size < 128 then [] else sortDesc (Spec.stdEntries d)) := by
+  simp only [standardTimings, hasBaseBlock]
+  by_cases hs : size < 128
+  · have : ¬ (size ≥ 128) := by omega
+    simp [hs, this]
+  · have h2 : size ≥ 128 := by omega
+    simp only [h2, decide_true, Bool.not_true, Bool.false_eq_true, ↓reduceIte, hs]
+    rw [collectStd_eq_spec d hb hl _ (by intro i hi; simpa [NUM_STANDARD_TIMINGS] using hi)]
+    simp [Spec.stdEntries, NUM_STANDARD_TIMINGS]
+
+theorem insertDesc_perm (x : Nat × Nat) (l : List (Nat × Nat)) : (insertDesc x l).Perm (x :: l) := by
+  induction l with
+  | nil => simp [insertDesc]
+  | cons y ys ih =>
+    simp only [insertDesc]
+    split
+    · exact List.Perm.refl _
+    · exact (List.Perm.cons y ih).trans (List.Perm.swap x y ys)
+
+theorem sortDesc_perm (l : List (Nat × Nat)) : (sortDesc l).Perm l := by
+  induction l with
+  | nil => simp [sortDesc]
+  | cons x xs ih => exact (insertDesc_perm x _).trans (List.Perm.cons x ih)
+
+theorem insertDesc_sorted (x : Nat × Nat) (l : List (Nat × Nat))
+    (h : l.Pairwise fun a b => area b ≤ area a) : (insertDesc x l).Pairwise fun a b => area b ≤ area a := by
+  induction l with
+  | nil => simp [insertDesc]
+  | cons y ys ih =>
+    simp only [insertDesc]
+    rw [List.pairwise_cons] at h
+    split
+    · rename_i hyx
+      rw [List.pairwise_cons]
+      refine ⟨?_, List.pairwise_cons.2 h⟩
+      intro b hb
+      rcases List.mem_cons.1 hb with rfl | hb
+      · exact hyx
+      · exact Nat.le_trans (h.1 b hb) hyx
+    · rename_i hyx
+      rw [List.pairwise_cons]
+      refine ⟨?_, ih h.2⟩
+      intro b hb
+      have := (insertDesc_perm x ys).subset hb
+      rcases List.mem_cons.1 this with rfl | hb
+      · omega
+      · exact h.1 b hb
+
+/-- sorted as documented: largest pixel count first -/
+theorem sortDesc_sorted (l : List (Nat × Nat)) : (sortDesc l).Pairwise fun a b => area b ≤ area a := by
+  induction l with
+  | nil => simp [sortDesc]
+  | cons x xs ih => exact insertDesc_sorted x _ ih
+
+theorem insertDesc_filter (k : Nat) (x : Nat × Nat) (l : List (Nat × Nat)) :
+    (insertDesc x l).filter (fun a => area a == k) = (x :: l).filter (fun a => area a == k) := by
+  induction l with
+  | nil => simp [insertDesc]
+  | cons y ys ih =>
+    simp only [insertDesc]
+    split
+    · rfl
+    · rename_i hyx
+      simp only [List.filter_cons] at ih ⊢
+      rw [ih]
+      by_cases hx : area x = k <;> by_cases hy : area y = k <;> simp [hx, hy]
+      omega
+
+/-- stable, like `slice::sort_by`: entries of equal pixel count keep their order in the block -/
+theorem sortDesc_stable (k : Nat) (l : List (Nat × Nat)) :
+    (sortDesc l).filter (fun a => area a == k) = l.filter (fun a => area a == k) := by
+  induction l with
+  | nil => simp [sortDesc]
+  | cons x xs ih =>
+    simp only [sortDesc]
+    rw [insertDesc_filter, List.filter_cons, List.filter_cons, ih]
+
+theorem stdEntries_length (d : Bytes) : (Spec.stdEntries d).length ≤ 8 := by
+  simp only [Spec.stdEntries]
+  exact Nat.le_trans (List.length_filterMap_le _ _) (by simp)
+
+/-- at most 8 entries, for every blob and size -/
+theorem standardTimings_length (d : Bytes) (size : Nat) (l : List (Nat × Nat)) (hb : ∀ b ∈ d, b < 256)
+    (hl : 128 ≤ d.length) (h : standardTimings d size = some l) : l.length ≤ 8 := by
+  rw [standardTimings_eq_spec d size hb hl] at h
+  simp only [Option.some.injEq] at h
+  subst h
+  split
+  · simp
+  · rw [(sortDesc_perm _).length_eq]; exact stdEntries_length d
+
+/-- the base block of the EDID QEMU's virtio-gpu generates (1920x1080 preferred) -/
+def qemuBase : Bytes := [0, 255, 255, 255, 255, 255, 255, 0, 73, 20, 52, 18, 0, 0, 0, 0, 42, 24, 1, 4, 165, 48, 27, 120, 6, 238, 145, 163, 84, 76, 153, 38, 15, 80, 84, 33, 8, 0, 225, 192, 209, 192, 209, 0, 169, 64, 179, 0, 149, 0, 129, 128, 129, 64, 210, 84, 128, 160, 114, 56, 37, 64, 224, 57, 85, 64, 231, 18, 17, 0, 0, 24, 0, 0, 0, 247, 0, 10, 0, 64, 130, 0, 40, 32, 0, 0, 0, 0, 0, 0, 0, 0, 0, 253, 0, 50, 125, 30, 160, 255, 1, 10, 32, 32, 32, 32, 32, 32, 0, 0, 0, 252, 0, 81, 69, 77, 85, 32, 77, 111, 110, 105, 116, 111, 114, 10, 1, 176]
+
+set_option maxRecDepth 20000 in
+example : preferredResolution qemuBase 256 = some (.ok (1920, 1080))
+    ∧ standardTimings qemuBase 256 = some [(2048, 1152), (1920, 1200), (1920, 1080), (1600, 1200),
+        (1680, 1050), (1280, 1024), (1440, 900), (1280, 960)]
+    ∧ preferredResolution qemuBase 127 = some (.error .ioError) ∧ standardTimings qemuBase 127 = some [] := by
+  refine ⟨by rfl, by decide +kernel, by rfl, by decide +kernel⟩
+
+/-- a blob shorter than the base block would make the Rust slice index panic — the driver's array is
+always 1024 bytes, so this outcome is unreachable there (`no_panic`) -/
+example : preferredResolution (qemuBase.take 60) 128 = none := by rfl
+
+end Edid
+
 end VirtioVerif.Props.C20
